@@ -80,6 +80,10 @@ theorem resolve_core (l l' : List SharedErr) (hr : HReq)
     | notAllowed a => rfl
     | found hd =>
       simp only
+      cases hdir : hr.direct with
+      | true => rfl
+      | false =>
+      simp only [Bool.false_eq_true, if_false]
       have hm := mapped_core l l' cls h
       cases ha : mapped l cls with
       | none =>
